@@ -611,6 +611,15 @@ class Checker:
         code = {'select': 0, 'utility': 1, 'random': 2}
         exp = [(code[t], n, p) for t, n, p in m.resolutions]
         obs = [(r[0], r[1], r[2]) for r in self.rl if r[2] != 255]
+        if self.mirror_on and obs != exp:
+            # C16: every resolution is reported exactly once (judged when the records are the interpreter's resolutions with some missing, or with extras)
+            def subseq(a, b):
+                it = iter(b); return all(any(x == y for y in it) for x in a)
+            if len(obs) < len(exp) and subseq(obs, exp):
+                miss = next((e for i, e in enumerate(exp) if i >= len(obs) or obs[i] != e), None)
+                self.v('C16', 'resolution|%s-resolution-without-record' % {0: 'select', 1: 'utility', 2: 'random'}.get(miss[0] if miss else 2), op, {'expected': exp[:6], 'recorded': obs[:6]})
+            elif len(obs) > len(exp) and subseq(exp, obs):
+                self.v('C16', 'resolution|record-without-resolution', op, {'expected': exp[:6], 'recorded': obs[:6]})
         if self.rl or exp:
             self.stats['C12.resolutions'] += len(obs)
             if obs != exp and self.rl:
